@@ -211,13 +211,26 @@ func Lit() {
 }
 `
 
+// a second file of package u: the first use of the type is a parameter on its own line of a multi-line signature
+const c07SrcRU3 = `package u
+
+import "zzmod/d"
+
+func Multi(
+	a d.Helper, //«j3»
+	b d.Helper, // J-PARAM2
+) {
+}
+`
+
 // ZZC07RereportField: the first uses of the once-per-file type are a struct field and a parameter (other AST paths than
 // literals and var declarations); a suppressed use must not swallow the report.
 func ZZC07RereportField() {
 	j1 := nd.EnumPad("j1", " @ignore TONL01", " @ignore PKGO01", " @ignore ALL", " plain")
 	j2 := nd.EnumPad("j2", " @ignore TONL", " @ignore PKGO", " plain")
-	holes := []nd.Hole{{"j1", j1}, {"j2", j2}}
-	files := []nd.File{{Pkg: "zzmod/d", Name: "d.go", Src: c07SrcRD}, {Pkg: "zzmod/u", Name: "u.go", Src: c07SrcRU2}}
+	j3 := nd.EnumPad("j3", " @ignore TONL01", " @ignore PKGO", " @ignore IMM01", " plain")
+	holes := []nd.Hole{{"j1", j1}, {"j2", j2}, {"j3", j3}}
+	files := []nd.File{{Pkg: "zzmod/d", Name: "d.go", Src: c07SrcRD}, {Pkg: "zzmod/u", Name: "u.go", Src: c07SrcRU2}, {Pkg: "zzmod/u", Name: "u3.go", Src: c07SrcRU3}}
 	prog := nd.LoadProgram(files, holes)
 	cfg := config.Default()
 	rd := Analyze(prog, cfg, "zzmod/d", Facts{}, "tonl", "pkgo")
@@ -236,6 +249,11 @@ func ZZC07RereportField() {
 		{fu, l1, "PKGO01", nd.Not(s1P)},
 		{fu, l2, "PKGO01", nd.And(s1P, nd.Not(s2P))},
 		{fu, l3, "PKGO01", nd.And(s1P, s2P)},
+		// a marker trailing a parameter line of a multi-line signature covers that line: the report moves to the next parameter
+		{"/zz/zzmod/u/u3.go", nd.LineOf(c07SrcRU3, "//«j3»"), "TONL01", nd.Not(nd.HasPrefix(j3, " @ignore TONL01"))},
+		{"/zz/zzmod/u/u3.go", nd.LineOf(c07SrcRU3, "J-PARAM2"), "TONL01", nd.HasPrefix(j3, " @ignore TONL01")},
+		{"/zz/zzmod/u/u3.go", nd.LineOf(c07SrcRU3, "//«j3»"), "PKGO01", nd.Not(nd.HasPrefix(j3, " @ignore PKGO"))},
+		{"/zz/zzmod/u/u3.go", nd.LineOf(c07SrcRU3, "J-PARAM2"), "PKGO01", nd.HasPrefix(j3, " @ignore PKGO")},
 	}, "C07 re-reporting when the first uses are a field and a parameter")
 }
 
